@@ -44,6 +44,10 @@ type Compiler struct {
 
 	// Source filename
 	filename string
+
+	// While the expressions of a template string are compiled: the position
+	// of that string, which errors are reported at
+	templatePosition *token.Position
 }
 
 // Option is a configuration function for a Compiler.
@@ -837,7 +841,18 @@ func (c *Compiler) compileString(node *ast.String) error {
 				c.emit(op.LoadConst, c.constant(""))
 				continue
 			}
-			if err := c.compile(expr); err != nil {
+			// The expression was parsed on its own, so the positions in it
+			// count from the start of the fragment. An error in it is
+			// reported at the string it is part of, which is a place that
+			// exists in the source.
+			outer := c.templatePosition
+			if outer == nil {
+				position := node.Token().StartPosition
+				c.templatePosition = &position
+			}
+			err := c.compile(expr)
+			c.templatePosition = outer
+			if err != nil {
 				return err
 			}
 		case false:
@@ -2241,6 +2256,9 @@ func normalizeFunctionBlock(node *ast.Block) []ast.Node {
 
 // formatError creates a detailed error message including file, line and column information
 func (c *Compiler) formatError(msg string, pos token.Position) error {
+	if c.templatePosition != nil {
+		pos = *c.templatePosition
+	}
 	lineCol := fmt.Sprintf("line %d, column %d", pos.LineNumber(), pos.ColumnNumber())
 	filename := c.filename
 	if filename == "" {
